@@ -393,6 +393,7 @@ def run(M, rec, tier, seed, k, n):
     # node equations evaluated for K nodes / instants at once: a column never depends on another one
     batched.batched_primitives(M, rec, rng, PROP, 300 if tier == "quick" else 3000, which=batched.NODE_PRIMS)
     kind_with_a_nominal_state(M, rec, rng, 24 if tier == "quick" else 240)
+    W.preallocated_buffers(M, rec, rng, PROP, 24 if tier == "quick" else 240, what="a network (each next state a function of the CURRENT neighbouring states)")
     # scripted in every run: a corridor whose INTERIOR nodes are falsy user-defined nodes (what a node's entering / leaving
     # links are does not depend on its truth value)
     for st in ("SX", "MX"):
